@@ -220,6 +220,7 @@ def check_property(prop, tier, seed):
         "trusted_base": sorted(set(pv.get("trusted_base", []) + reg.get("trusted_base", []))),
         "explanation": reg.get("explanation", "") + (" | UNDECIDED: " + ", ".join(o["name"] for o in undecided) if undecided else ""),
         "functions_under_contract": pv.get("functions", []),
+        "functions_symbolically_executed": pv.get("functions_symbolically_executed", []),
         "obligation_results": [
             {k: o.get(k) for k in ("name", "function", "backend", "result", "ms", "kind")} for o in obligations
         ],
